@@ -263,7 +263,7 @@ def conforms(v, D):
             return False
         return True
     if k == "validated":
-        return e["preds"][D[1]](v)
+        return bool(e["preds"][D[1]](v))  # (any falsy answer of the predicate is a rejection)
     raise AssertionError(D)
 
 
